@@ -209,6 +209,10 @@ def _integrate_over(expr: ast.AST, generators: Sequence[ast.comprehension]) -> a
                 _parse_sympy_expr(core.unparse(value).strip()) for value in comprehension.iter.elts
             ]
             if isinstance(comprehension.iter, ast.Set):
+                # Equal elements of a set count once, and whether two elements are equal is only
+                # known where all of them are numbers
+                if not all(value.is_number for value in values):
+                    raise ValueError("Cannot tell which elements of the set are equal")
                 values = set(values)
 
             sym_expr = sum(sym_expr.subs(integrand, value) for value in values)
